@@ -108,7 +108,7 @@ def gen_public(tier):
 
     for case in c13.gen_public(tier):
         cfg = Cfg.from_desc(case["cfg"])
-        if cfg.auth and ("order" in case or (case.get("clock") == 0 and case["script"] == c13.SCRIPTS[1])):
+        if cfg.auth and ("order" in case or case.get("lose_first") or case.get("ctx_other") or (case.get("clock") == 0 and case["script"] == c13.SCRIPTS[1])):
             yield case
 
 
@@ -122,7 +122,7 @@ def work_public(chunk):
         res.count("datagrams", n)
         res.count("api_calls", len(case["script"]) + 1)
         res.distinct()
-        res.outcome("public-" + case["driver"] + ("-shared-user" if "order" in case else ""))
+        res.outcome("public-" + case["driver"] + ("-shared-user" if "order" in case else "") + ("-lost-probe" if case.get("lose_first") else ""))
         for c, t in probs:
             if c == "mac":
                 res.violation("public/%s/%s: %s" % (case["driver"], c, histcheck.classify(t)), t, case)
@@ -145,7 +145,7 @@ def run(tier):
     rec.rule = (
         "per configuration (engine-id length x user-name length x digest x cipher x key type): one long history sweeping the request "
         "size octet by octet across 127/128 and 255/256 at every nesting level and up to the buffer limit, for each boots/time width "
-        "class; every depth<=2 prefix on the shared pool x every request type; keys installed via discovery+set_keys; sync and async public clients incl. one User object shared by sessions to agents with different engine ids. "
+        "class; every depth<=2 prefix on the shared pool x every request type; keys installed via discovery+set_keys; sync and async public clients incl. one User object shared by sessions to agents with different engine ids, and the first discovery datagram lost. "
         "evaluations = datagrams whose MAC was recomputed; distinct cases = histories."
     )
     rec.assume("HMAC and key derivation by CPython hashlib/hmac; key localized to the engine id found in the message")
